@@ -7,9 +7,11 @@ mod codec;
 mod dump;
 mod events;
 mod frame;
+mod reader;
+mod util;
+mod writer;
 mod hitobj;
 mod sections;
-mod util;
 mod whole;
 
 use std::io::{self, BufRead, Write};
@@ -51,6 +53,8 @@ fn main() {
 /// Each module answers the requests it knows (`None` = not mine).
 fn dispatch_impl(toks: &[&str]) -> String {
     None.or_else(|| frame::dispatch_impl(toks))
+        .or_else(|| reader::dispatch_impl(toks))
+        .or_else(|| writer::dispatch_impl(toks))
         .or_else(|| codec::dispatch_impl(toks))
         .or_else(|| sections::dispatch_impl(toks))
         .or_else(|| hitobj::dispatch_impl(toks))
@@ -61,6 +65,8 @@ fn dispatch_impl(toks: &[&str]) -> String {
 
 fn dispatch_prop(toks: &[&str]) -> String {
     None.or_else(|| frame::dispatch_prop(toks))
+        .or_else(|| reader::dispatch_prop(toks))
+        .or_else(|| writer::dispatch_prop(toks))
         .or_else(|| codec::dispatch_prop(toks))
         .or_else(|| sections::dispatch_prop(toks))
         .or_else(|| hitobj::dispatch_prop(toks))
